@@ -1,4 +1,6 @@
 CONSTANTS
+  TransitiveSkip = TRUE
+  FaultMaxN = 0
   MaxN = 3
   Family = "all"
 SPECIFICATION Spec
